@@ -150,7 +150,10 @@ def translate(evs):
         elif ev == "e_drain_snapshot":
             out.append({"a": "DrainSnapshot", "t": e["tg"], "rs": [x for x in e["rs"] if x in kinds]})
         elif ev == "y_drain_deadline":
-            out.append({"a": "DrainDeadline", "t": e["tg"]})
+            out.append({"a": "DrainWaited", "t": e["tg"]})
+        elif ev == "x_rel" and e.get("point") == "drain_deadline":
+            # what is still running is cancelled when the drain goroutine goes on from the hook, not when it arrives there
+            out.append({"a": "DrainDeadline", "t": e["actor"].split(":", 1)[1].split("#")[0]})
         elif ev == "cli_send":
             k = e["kind"]
             dk = "slowupgrade" if k in ("upgrade", "slowupgrade") else ("plain" if (k == "plain" and urgent) else "slow")
